@@ -299,6 +299,40 @@ def build(tier="quick", seed=0):
                     continue
                 scope_ob(f"C12.scope[prior={list(prior)},raises={body_raises},nested={nested}]", prior, body_raises, nested)
 
+    # ---- the configuration may be given as ANY iterable of names (the setter's signature says Iterable): also one that can be walked only once
+    KINDS = {"list": lambda: ["n", "q"], "tuple": lambda: ("n", "q"), "set": lambda: {"n", "q"}, "frozenset": lambda: frozenset({"n", "q"}), "dict keys": lambda: {"n": 1, "q": 2}.keys(), "generator expression": lambda: (x_ for x_ in ["n", "q"]),
+             "iterator": lambda: iter(["n", "q"]), "map object": lambda: map(str, ["n", "q"]), "filter object": lambda: filter(None, ["n", "", "q"])}
+    for kind, mkcfg in KINDS.items():
+        for via in ("setter", "scope"):
+            name = f"C12.config[given as a {kind}, through the {via}]"
+
+            def th(mkcfg=mkcfg, via=via):
+                a, b = pair()
+                cm = None
+                if via == "setter":
+                    it.call(base.g["set_ignored_fields_for_comparison"], [mkcfg()], {})
+                else:
+                    cm = it.call(base.g["ignore_fields_for_comparison"], [mkcfg()], {})
+                    cm.__enter__()
+                try:
+                    cfg = set(base.g["IGNORE_FIELDS_FOR_COMPARISON"])
+                    it.assume(s1 == s2)
+                    it.assume(n1 != n2)  # the two records differ in the ignored field only
+                    eq, ne = it.truth(it.compare("Eq", a, b)), it.truth(it.compare("NotEq", a, b))
+                    ha, hb = it.hash_(a), it.hash_(b)
+                finally:
+                    if cm is not None:
+                        cm.__exit__(None, None, None)
+                return cfg, eq, ne, hterm(ha), hterm(hb)
+
+            def judge(p, kind=kind):
+                cfg, eq, ne, ha, hb = p.value
+                if cfg != {"n", "q"} or eq is not True or ne is not False:
+                    return False, f"ignored fields given as a {kind}: the configuration is {sorted(cfg)}; records differing only in an ignored field: == {eq}, != {ne}"
+                return ha == hb, "records that are equal under the configuration hash differently"
+
+            pack.add(Obligation(name, lambda tier, name=name, th=th, judge=judge: prove_paths(name, with_clean_config(th), judge, lambda m, p: {}), replay=lambda w, kind=kind, via=via: {"call": "c12_config_kind", "args": {"kind": kind, "via": via}}, functions=FU[-3:-1]))
+
     # ---- canary, conformance, bounded
     pack.add(Obligation("C12.canary", lambda tier: prove_paths("C12.canary", with_clean_config(lambda: it.compare("Eq", *pair())), lambda p: tb(p.value) == (n1 == n2), wit), kind="canary"))
 
